@@ -254,8 +254,7 @@ def run(ctx):
         r4.check(ok, ctx.construct(f, extra="'spec' stored"),
                  "the stored 'spec' is not %s" % frag, ctx.loc(f))
     ge = prog.func(PARSER + '.get_workflow_spec_by_execution_id')
-    r4.check('.spec' in ast.unparse(ge.node) and
-             'get_workflow_spec(' in ast.unparse(ge.node),
+    r4.check(U.phas(ge.node, 'get_workflow_spec(__ex.spec)'),
              ctx.construct(ge), 'execution specs are not rebuilt from the '
              'stored spec dict', ctx.loc(ge))
 
